@@ -132,6 +132,11 @@ func runPluginInstall() int {
 		// bystander plugin q
 		writeExec(filepath.Join(root, "q", "notation-q"), installScript(marker, "q", "3.1.4", "ok", "bystander"))
 		must(os.WriteFile(filepath.Join(root, "q", "lib.so"), []byte("lib # origin: bystander\n"), 0644))
+		// ... and further bystanders whose names are derived from p's (what a backup, a temporary copy or a hidden twin of p would be
+		// called): plugins in their own right, none of p's business
+		for _, bn := range []string{"p.old", "p.bak", "p.tmp", "p.new", "p~", ".p", "p-backup", "pp"} {
+			writeExec(filepath.Join(root, bn, "notation-"+bn), installScript(marker, bn, "1.0.0", "ok", "bystander"))
+		}
 		// pre-state of plugin p
 		curVer := verString(in.Cur.Ver, salt)
 		if in.Cur.Present {
@@ -235,7 +240,7 @@ func runPluginInstall() int {
 		} else {
 			pluginPath = strings.TrimSuffix(srcGiven, "/") + "/" + filepath.Base(pluginPath)
 		}
-		bystBefore := snapTree(filepath.Join(root, "q"))
+		bystBefore := snapTree(root, filepath.Join(root, "p"))
 		mgr := plugin.NewCLIManager(dir.NewSysFS(spell(root, filepath.Join(caseDir, "root-link"), mix(*flagSeed, c.ID, "spell-root"))))
 		ctx := context.Background()
 		obs := InstObs{Modes: []ModeObs{}, Files: []string{}, Intact: true, ReportedNew: -1, ReportedOld: -1}
@@ -366,7 +371,7 @@ func runPluginInstall() int {
 		if panicked {
 			obs.Panic, obs.Note = true, msg
 		}
-		obs.BystanderSame = len(diffSnap(bystBefore, snapTree(filepath.Join(root, "q")))) == 0
+		obs.BystanderSame = len(diffSnap(bystBefore, snapTree(root, filepath.Join(root, "p")))) == 0
 		if *flagLie == "state" && c.ID%97 == 7 {
 			obs.Present = !obs.Present
 		}
